@@ -275,6 +275,10 @@ func gExpr(e gast.Expression) string {
 			switch kk := k.Key.(type) {
 			case *gast.StringLiteral:
 				key = "k:" + string(kk.Value)
+				// goja hands an unquoted identifier-name key over as a string literal whose raw text has no quotes
+				if lit := kk.Literal; lit != "" && lit[0] != '\'' && lit[0] != '"' && Keywords[string(kk.Value)] {
+					out("keyword as object key")
+				}
 			case *gast.NumberLiteral:
 				key = "k:" + kk.Literal
 			case *gast.Identifier:
